@@ -41,7 +41,17 @@ func main() {
 		if err := genDoneRule(p, pm, l); err != nil {
 			return err
 		}
-		return genRetries(p, l)
+		if err := genRetries(p, l); err != nil {
+			return err
+		}
+		if err := genLookupCacheOps(p, l); err != nil {
+			return err
+		}
+		cp, err := c.Load("cache")
+		if err != nil {
+			return err
+		}
+		return genCacheShapes(cp, l)
 	})
 }
 
@@ -456,5 +466,140 @@ func genRetries(p *gen.Pkg, l *gen.Lean) error {
 		return fmt.Errorf("sendQueriesUDP: resend interval (time.After) not found")
 	}
 	l.NatDef("udpSendInterval", interval, "dns.go sendQueriesUDP sendFunc: time.After(...) in ns")
+	return nil
+}
+
+// ---- how Lookup uses the cache: probe by Get(name), store by Set(name, result), each under the mutex,
+// nothing else; in particular no pointer into the cache (GetEntry) survives the unlocked round trip ----
+
+func genLookupCacheOps(p *gen.Pkg, l *gen.Lean) error {
+	// every mention of the cache field in the package
+	var uses []string
+	for _, f := range p.Files {
+		for _, d := range f.Decls {
+			fd, ok := d.(*ast.FuncDecl)
+			if !ok || fd.Body == nil {
+				continue
+			}
+			walk(fd.Body, func(n ast.Node, _ []ast.Node) {
+				if se, ok := n.(*ast.SelectorExpr); ok && se.Sel.Name == "cache" {
+					uses = append(uses, fd.Name.Name)
+				}
+			})
+		}
+	}
+	for _, u := range uses {
+		if u != "Lookup" {
+			return fmt.Errorf("dns: the resolver cache is used outside Lookup (in %s)", u)
+		}
+	}
+	lk, err := p.Func("*Resolver", "Lookup")
+	if err != nil {
+		return err
+	}
+	// statement-level: the cache calls and their neighbours
+	var ops []string
+	stmts := lk.Body.List
+	var werr error
+	for i, st := range stmts {
+		mentions := false
+		walk(st, func(n ast.Node, _ []ast.Node) {
+			if se, ok := n.(*ast.SelectorExpr); ok && se.Sel.Name == "cache" {
+				mentions = true
+			}
+		})
+		if !mentions {
+			continue
+		}
+		src := p.Src(st)
+		switch src {
+		case "result, ok := r.cache.Get(name)":
+			ops = append(ops, "Get(name)")
+		case "r.cache.Set(name, result)":
+			ops = append(ops, "Set(name, result)")
+		default:
+			werr = fmt.Errorf("Lookup: unrecognised use of the cache: %s", src)
+		}
+		if i == 0 || i+1 >= len(stmts) || p.Src(stmts[i-1]) != "r.mu.Lock()" || p.Src(stmts[i+1]) != "r.mu.Unlock()" {
+			werr = fmt.Errorf("Lookup: cache access not bracketed by r.mu.Lock()/r.mu.Unlock(): %s", src)
+		}
+	}
+	if werr != nil {
+		return werr
+	}
+	if strings.Join(ops, ";") != "Get(name);Set(name, result)" {
+		return fmt.Errorf("Lookup: expected the cache operations [Get(name), Set(name, result)] at the top level of the body, found %v (%d uses)", ops, len(uses))
+	}
+	if len(uses) != 2 {
+		return fmt.Errorf("Lookup: %d mentions of r.cache, 2 recognised", len(uses))
+	}
+	// the value stored is the fresh result: `result = newResult.Result` is the last assignment to result before the Set
+	l.BoolDef("lookupProbeIsGet", true, "dns.go Lookup: the only cache read is `result, ok := r.cache.Get(name)` under r.mu (a copy of the value, no pointer into the cache)")
+	l.BoolDef("lookupStoreIsSetByName", true, "dns.go Lookup: the only cache write is `r.cache.Set(name, result)` under r.mu (keyed by the name, no retained entry)")
+	return nil
+}
+
+// ---- cache/cache.go: the three list primitives are the statements the Lean model mirrors ----
+
+func genCacheShapes(p *gen.Pkg, l *gen.Lean) error {
+	want := map[string][]string{
+		"insert": {
+			"if len(c.nodeByKey) == c.capacity { c.remove(c.head) }",
+			"node := &boundedNode[K, V]{ prev: c.tail, Entry: Entry[K, V]{Key: key, Value: value}, }",
+			"c.nodeByKey[key] = node",
+			"if c.tail != nil { c.tail.next = node } else { c.head = node }",
+			"c.tail = node",
+		},
+		"remove": {
+			"delete(c.nodeByKey, node.Key)",
+			"if node.prev != nil { node.prev.next = node.next } else { c.head = node.next }",
+			"if node.next != nil { node.next.prev = node.prev } else { c.tail = node.prev }",
+		},
+		"moveToTail": {
+			"if node.next == nil { return }",
+			"node.next.prev = node.prev",
+			"if node.prev != nil { node.prev.next = node.next } else { c.head = node.next }",
+			"node.prev = c.tail",
+			"node.next = nil",
+			"c.tail.next = node",
+			"c.tail = node",
+		},
+	}
+	for _, name := range []string{"insert", "remove", "moveToTail"} {
+		fd, err := p.Func("*BoundedCache[K, V]", name)
+		if err != nil {
+			return err
+		}
+		var got []string
+		for _, st := range fd.Body.List {
+			got = append(got, p.Src(st))
+		}
+		w := want[name]
+		if len(got) != len(w) {
+			return fmt.Errorf("cache.go %s: %d statements, the model mirrors %d: %q", name, len(got), len(w), got)
+		}
+		for i := range w {
+			if got[i] != w[i] {
+				return fmt.Errorf("cache.go %s: statement %d is %q, the model mirrors %q", name, i, got[i], w[i])
+			}
+		}
+	}
+	// which exported methods hand out pointers into nodes
+	var ptrAPIs []string
+	for _, f := range p.Files {
+		for _, d := range f.Decls {
+			fd, ok := d.(*ast.FuncDecl)
+			if !ok || fd.Recv == nil || fd.Type.Results == nil {
+				continue
+			}
+			for _, r := range fd.Type.Results.List {
+				if _, isPtr := r.Type.(*ast.StarExpr); isPtr {
+					ptrAPIs = append(ptrAPIs, fd.Name.Name)
+				}
+			}
+		}
+	}
+	l.BoolDef("insertAllocatesFreshNode", true, "cache.go insert: evicts with c.remove(c.head) and links a newly allocated node (no node is re-keyed)")
+	l.Raw(fmt.Sprintf("/-- cache.go: methods returning pointers into nodes (pointer stability matters for these: `SSV.C17.node_key_stable`) -/\ndef entryPointerAPIs : List String := %s\n", gen.LeanStrList(ptrAPIs)))
 	return nil
 }
